@@ -11,7 +11,7 @@ from engine import symex
 from engine.symex import AND, OR, NOT, IMPLIES, ITE, assume, int_var, real_var, bool_var, SymBool
 from engine.e1 import Harness, run_ob, replay, spec  # noqa
 from props.C05_cachemap import LevelPrefix as _LevelPrefix, PathInjective, FakeTile, DIMS
-from props.C11_seed import GRIDS, TM, Pool, SeedWalk
+from props.C11_seed import GRIDS, TM, Pool, SeedWalk, make_coverage
 
 MOD = 'props.C12_cleanup'
 
@@ -237,7 +237,7 @@ class CleanupWalk(SeedWalk):
     def prop(cls, ctx, cfg, cov, tx, ty, stale):
         g, G, seeder, covm = ctx['g'], ctx['G'], ctx['seeder'], ctx['cov']
         levels, meta, tl = list(cfg['levels']), tuple(cfg['meta']), cfg['target_level']
-        coverage = covm.BBOXCoverage(tuple(cov), ctx['srs'])
+        coverage, rects = make_coverage(g, G, covm, ctx['srs'], cfg, cov)
         tm = TM(g, G, meta)
 
         def is_stale(t):
@@ -256,14 +256,14 @@ class CleanupWalk(SeedWalk):
         main = MG.main_tile((tx, ty, tl))
         mb = MG.meta_tile(main).bbox
         eps = G.resolution(0) * 0.2
-        inter = AND(mb[0] + eps < cov[2], mb[2] - eps > cov[0], mb[1] + eps < cov[3], mb[3] - eps > cov[1],
-                    cov[2] - cov[0] > eps, cov[3] - cov[1] > eps)
+        inter = OR(*[AND(mb[0] + eps < r[2], mb[2] - eps > r[0], mb[1] + eps < r[3], mb[3] - eps > r[1],
+                         r[2] - r[0] > eps, r[3] - r[1] > eps) for r in rects])
         handed = False
         ok = True
         for t in pool.got:
             ok = AND(ok, t[2] in levels)
             tb = MG.meta_tile(t).bbox
-            ok = AND(ok, tb[0] <= cov[2], tb[2] >= cov[0], tb[1] <= cov[3], tb[3] >= cov[1])
+            ok = AND(ok, OR(*[AND(tb[0] <= r[2], tb[2] >= r[0], tb[1] <= r[3], tb[3] >= r[1]) for r in rects]))
             if t[2] == tl:
                 handed = OR(handed, AND(t[0] == tx, t[1] == ty))
         # a fresh tile is never removed; a stale one inside the coverage is
@@ -309,10 +309,13 @@ def obligations(tier, seed):
                       cfg=dict(cache='file:quadkey')))
     specs.append(spec(MOD, 'ExpiryAgreement', 'expiry-predicates-agree', cfg={}))
     walk_cfgs = [dict(grid='f2', levels=[0, 1], meta=[2, 2], target_level=1), dict(grid='sqrt2', levels=[0, 1], meta=[1, 1], target_level=1)]
+    # polygon (L-shaped) coverage, the case in which the tile-walk strategy is really needed
+    walk_cfgs.append(dict(grid='f2', levels=[1, 2], meta=[1, 1], target_level=2, shape='L', tag='/L-shaped'))
     if tier == 'thorough':
+        walk_cfgs.append(dict(grid='f2', levels=[2], meta=[2, 2], target_level=2, shape='L', tag='/L-shaped'))
         walk_cfgs += [dict(grid='nonsq', levels=[0, 1], meta=[2, 2], target_level=1, width=1.0), dict(grid='f2', levels=[0, 2], meta=[2, 2], target_level=2)]
     for c in walk_cfgs:
-        specs.append(spec(MOD, 'CleanupWalk', 'cleanup-walk/%s/L%s/m%dx%d' % (c['grid'], '-'.join(map(str, c['levels'])), c['meta'][0], c['meta'][1]), cfg=c, cost=60))
+        specs.append(spec(MOD, 'CleanupWalk', 'cleanup-walk/%s/L%s/m%dx%d%s' % (c['grid'], '-'.join(map(str, c['levels'])), c['meta'][0], c['meta'][1], c.get('tag', '')), cfg=c, cost=60))
     twins = dict(LevelPrefix=dict(layout='tc', d1='none'), CleanupDirectory=dict(remove_all=False, dry_run=False), Strategy=dict(cache='file:tc'),
                  ExpiryAgreement={}, CleanupWalk=dict(grid='f2', levels=[0, 1], meta=[2, 2], target_level=1))
     for h, c in twins.items():
